@@ -422,7 +422,7 @@ func runParent(prop, tier string) int {
 		}
 		unknown++
 		h := sha1.Sum(append([]byte(s), v.Case...))
-		dir := filepath.Join(verifDir, "replays", prop)
+		dir := filepath.Join(envOr("VERIF_REPLAY_DIR", filepath.Join(verifDir, "replays")), prop)
 		os.MkdirAll(dir, 0o755)
 		path := filepath.Join(dir, hex.EncodeToString(h[:6])+".json")
 		os.WriteFile(path, b, 0o644)
@@ -472,8 +472,9 @@ func runParent(prop, tier string) int {
 		"violations":  unknown,
 	}
 	eb, _ := json.MarshalIndent(ev, "", " ")
-	os.MkdirAll(filepath.Join(verifDir, "evidence"), 0o755)
-	if err := os.WriteFile(filepath.Join(verifDir, "evidence", prop+".json"), eb, 0o644); err != nil {
+	evDir := envOr("VERIF_EVIDENCE_DIR", filepath.Join(verifDir, "evidence")) // self-tests against scratch copies write elsewhere
+	os.MkdirAll(evDir, 0o755)
+	if err := os.WriteFile(filepath.Join(evDir, prop+".json"), eb, 0o644); err != nil {
 		fmt.Fprintln(os.Stderr, "cannot write evidence:", err)
 		return 3
 	}
